@@ -162,10 +162,14 @@ func paramVars(f *ssa.Function, args []Val) map[string]Val {
 
 // applyContract replaces a call by the callee's contract.
 func (fx *fexec) applyContract(c *Contract, f *ssa.Function, args []Val, st *State, pos, name string) Val {
+	return fx.applyContractSig(c, f.Signature, paramVars(f, args), f.Pkg.Pkg, st, pos, name)
+}
+
+// applyContractSig applies a contract given the callee's signature and argument bindings
+// (used for static callees and for interface methods, which have no body).
+func (fx *fexec) applyContractSig(c *Contract, sig *types.Signature, vars map[string]Val, pkg *types.Package, st *State, pos, name string) Val {
 	vc := fx.vc
-	vars := paramVars(f, args)
 	pre := st.clone()
-	pkg := f.Pkg.Pkg
 	sc := &SpecCtx{vc: vc, vars: vars, st: pre, old: pre, pkg: pkg}
 	if (c.Arith == "bv") != vc.bv {
 		panic(engErr("callee " + c.Key() + " uses a different arithmetic mode"))
@@ -192,7 +196,6 @@ func (fx *fexec) applyContract(c *Contract, f *ssa.Function, args []Val, st *Sta
 		fx.havocLocation(sc, a.X, st)
 	}
 	st.alloc = vc.freshAlloc(st.alloc)
-	sig := f.Signature
 	res := make([]Val, sig.Results().Len())
 	post := &SpecCtx{vc: vc, vars: map[string]Val{}, st: st, old: pre, pkg: pkg}
 	for k, v := range vars {
@@ -226,6 +229,15 @@ func (vc *VC) freshAlloc(old Term) Term {
 func (fx *fexec) havocLocation(sc *SpecCtx, x *SX, st *State) {
 	vc := fx.vc
 	switch x.K {
+	case "ghost":
+		g := vc.eng.contracts.Ghosts[x.Op]
+		if g == nil {
+			panic(engErr("assigns: unknown ghost variable " + x.Op))
+		}
+		l := sc.ghostLoc(g)
+		v := vc.fresh("havoc_"+x.Op, vc.sortOf(l.Ty))
+		vc.assert(vc.typeInv(v, l.Ty, Term{}))
+		vc.storeLoc(st, l, v)
 	case "sel":
 		base := sc.eval(x.Args[0])
 		bt := vc.resolve(base.Ty)
